@@ -51,8 +51,18 @@ C01_WronglyTaken(i, o) ==
   {<<k, t>> \in Sh(i) \X ActiveSet(i) :
       /\ InSync(i, k) /\ t \in Reported(i, k) /\ t \notin After(i, o, k)
       /\ ~\E j \in Sh(i) \ {k} : InSync(i, j) /\ t \in Reported(i, j)}
+\* "after the cycle" includes the cycle's own scale requests: a shard whose position lies beyond a
+\* (successful) request is gone.  The clamp to max-shard of an over-sized replica is the operator's
+\* decision (C07 exempts it too) and is not judged here.
+Survives(i, o, j) ==
+  \A x \in DOMAIN o.scales : (x # i.failScale /\ NSh(i) <= i.opts.maxShard) => j <= o.scales[x]
+C01_OrphansByScale(i, o) ==
+  {t \in ActiveSet(i) : /\ \E k \in Sh(i) : InSync(i, k) /\ t \in Reported(i, k)
+                        /\ \E j \in Sh(i) : InSync(i, j) /\ t \in After(i, o, j)
+                        /\ ~\E j \in Sh(i) : InSync(i, j) /\ t \in After(i, o, j) /\ Survives(i, o, j)}
 C01(i, o) ==
   {[f |-> "orphan", t |-> t] : t \in C01_Orphans(i, o)}
+  \cup {[f |-> "orphan-by-scale-down", t |-> t] : t \in C01_OrphansByScale(i, o)}
   \cup {[f |-> "taken-without-other-copy", k |-> p[1], t |-> p[2]] : p \in C01_WronglyTaken(i, o)}
   \cup (IF o.panic THEN {[f |-> "panic"]} ELSE {})
 
